@@ -164,9 +164,10 @@ def r3_channels(ctx, rep, R='C02.R3'):
     want = [('failures', 'failures'), ('failures', 'unexpectedSuccesses'), ('errors', 'errors')]
     cnt = 0
     for acc, attr in want:
+        from .common import sources_of
         ext = nodes_calling(g, lambda c: isinstance(c.func, ast.Attribute) and
-                            c.func.attr == 'extend' and is_name(c.func.value, acc) and c.args and
-                            dotted(c.args[0]) == '%s.%s' % (res, attr))
+                            c.func.attr in ('extend', 'append') and is_name(c.func.value, acc) and
+                            c.args and ('%s.%s' % (res, attr)) in sources_of(c.args[0], {}))
         ok = bool(ext) and bool(loops) and acc in params(fi)
         if ok:
             h = loops[0]
